@@ -58,6 +58,8 @@ TEnd == /\ IsEvent("End")
         /\ UNCHANGED <<d, script, call, g, refs, cur, isRef, acc>>
 
 TNext == TReset \/ TNew \/ TRead \/ TMonitor \/ TLen \/ TCrc \/ TEnd
+\* reference outputs are determined by the consumed prefix of the trace: keep them out of the fingerprint
+TView == <<d, script, call, g, l, cur, isRef>>
 TSpec == TInit /\ [][TNext]_tvars
 Accepted == LET dd == TLCGet("stats").diameter - 1
             IN IF dd = Len(Trc) THEN TRUE ELSE PrintT(<<"REJECTED_AT_LINE", dd + 1>>) /\ FALSE
